@@ -216,6 +216,14 @@ def check(inp):
             else:
                 pass
         return compare(run(a), run(b), "%s on the %s of %s vs on each of %s" % (custom, place, cont, funcs[:inside] if place == "block" else funcs))
+    if kind == "enum_scope":
+        # an option / format field of a block reaches the enumerations declared in it, as it reaches the functions
+        cont, custom = inp["container"], inp["custom"]
+        e1, e2 = "enum Color { RED = 1, BLUE }", "enum Mode { OFF, ON }"
+        a_decls = [dict({"block": True, "declarations": [fdecl(e1), fdecl("void pop(int n)")]}, **copy.deepcopy(custom)), fdecl(e2)]
+        b_decls = [fdecl(e1, custom), fdecl("void pop(int n)", custom), fdecl(e2)]
+        return compare(run(wrap_container(cont, a_decls)), run(wrap_container(cont, b_decls)),
+                       "%s on a block holding an enum vs on the enum itself (%s)" % (custom, cont))
     if kind == "override":
         # an inner scope may set a field back to a FALSY value (false, 0, ''): the block says X = outer, one function inside
         # says X = inner; equals every function of the block with X = outer except that one with X = inner
@@ -279,6 +287,11 @@ def candidates(seed, around=None):
                                     ("debug", True, False), ("wrap_fortran", False, True), ("F_create_bufferify_function", False, True)):
             yield {"kind": "override", "container": cont, "funcs": fs, "field": field, "outer": outer, "inner": inner}
         yield {"kind": "override", "container": cont, "funcs": fs, "field": "F_result", "outer": "res", "inner": "rv2", "section": "format"}
+    for cont in ("library", "namespace", "class"):
+        for cu in ({"options": {"C_enum_member_template": "{C_prefix}X{C_name_scope}{enum_member_name}"}},
+                   {"options": {"F_enum_member_template": "x_{F_name_scope}{enum_member_lower}"}},
+                   {"options": {"C_enum_template": "{C_prefix}E{C_name_scope}{enum_name}"}}):
+            yield {"kind": "enum_scope", "container": cont, "custom": cu}
     for cu in CUSTOM + INST_CUSTOM:
         yield {"kind": "inst", "funcs": [f for f in FUNCS][:3], "custom": cu}
     # the generic variants of a function see the attributes of its other arguments, however they were given
